@@ -424,6 +424,29 @@ theorem phase_roundtrip_source (p : Option Nat) (h : ∀ n, p = some n → n < 3
     Gen.SrcGffRead.phaseDeserialize (phaseStr p) = .ok p :=
   GenSrcGffRead.phaseDeserialize_phaseStr p h
 
+/-- **the record closure of `gff::Records::next` as written = the record of the model reader**: given the nine deserialised
+columns, the code builds exactly the record `parseGffFields d` builds in its `ok` branch — the attribute column is split and trimmed
+as `parseAttrs d` does (every capture split on the value delimiter, `'` then `"` trimmed from key and values, pairs inserted in
+order).  The captures of the regular expression are abstract, instantiated with the model's scanner `scan` (trusted reading of
+the expression); the reader's `MultiMap` is read as its insertion sequence. -/
+theorem gff_record_closure_source_eq_model (d : Dialect) (hv : d.vdelim < 128) (self : Gen.SrcGffRead.Records)
+    (hs : self.value_delim = d.vdelim) (a b c : List Nat) (x y : Nat) (sc st : List Nat) (p : Option Nat) (att : List Nat) :
+    GenSrcGffRead.toRead (Gen.SrcGffRead.recordOfColumns (fun s => scan d (s.length + 1) s) self a b c x y sc st p att)
+      = ⟨a, b, c, x, y, sc, st, p, parseAttrs d att⟩ :=
+  GenSrcGffRead.recordOfColumns_eq_model d hv self hs a b c x y sc st p att
+
+/-- … hence on a line the model reads as `ok R`, the translated phase deserialiser and record closure produce `R` -/
+theorem gff_read_line_source_eq_model (d : Dialect) (hv : d.vdelim < 128) (self : Gen.SrcGffRead.Records)
+    (hs : self.value_delim = d.vdelim) (a b c s e sc st ph att : List Nat) (R : GffRead)
+    (h : parseGffFields d [a, b, c, s, e, sc, st, ph, att] = .ok R) :
+    ∃ x y p, readU64 s = .ok x ∧ readU64 e = .ok y ∧ Gen.SrcGffRead.phaseDeserialize ph = .ok p ∧
+      GenSrcGffRead.toRead (Gen.SrcGffRead.recordOfColumns (fun t => scan d (t.length + 1) t) self a b c x y sc st p att) = R := by
+  unfold parseGffFields at h
+  cases hs' : readU64 s <;> cases he : readU64 e <;> cases hp : readPhase ph <;> simp [hs', he, hp] at h
+  next x y p =>
+    exact ⟨x, y, p, rfl, rfl, (GenSrcGffRead.phaseDeserialize_refines_model ph).1 p hp,
+      by rw [GenSrcGffRead.recordOfColumns_eq_model d hv self hs]; exact h⟩
+
 -- non-vacuity: a GFF3 writer, a record with a two-valued key
 example : GenSrcGff.WriterFor gff3 (GenSrcGff.writerOf .GFF3) := GenSrcGff.writerFor_gff3
 example : ∀ kv ∈ ([([84], [[120], [121]]), ([73], [[122]])] : List (List Nat × List (List Nat))), kv.2 ≠ [] := by decide
